@@ -271,7 +271,7 @@ var c17Stmts = []c17Stmt{
 	{"MT", "mart MT {\n\tITEM_1\n\tITEM_2\n}\n", regexp.MustCompile(`^MT$`), true},
 	{"MAP", "mapscripts MAP {\n\tT1: SA\n\tT2 {\n\t\tmsgbox(\"text of MAP\")\n\t\tif (flag(M1)) {\n\t\t\tz\n\t\t}\n\t}\n\tT3 [\n\t\tVAR_1, 0: SB\n\t\tVAR_1, 1 {\n\t\t\tmsgbox(\"shared text\")\n\t\t}\n\t]\n}\n", regexp.MustCompile(`^(MAP|MAP_T\d+(_\d+)*)$`), false},
 	{"SC", "script SC {\n\tbraillemessage(braille\"shared text\")\n\tmsgbox(custom\"text of SA$\")\n\tmsgbox(\"text of SC\")\n}\n", regexp.MustCompile(`^(SC|SC_\d+)$`), false},
-	{"SD", "script SD {\n\tif (flag(D1)) {\n\t\tgoto(SB_9)\n\t}\n\tq\n\tSB_9:\n\tr\n\tSC_7(global):\n\tt\n}\n", regexp.MustCompile(`^(SD|SD_\d+|SB_9|SC_7)$`), false},
+	{"SD", "script SD {\n\tif (flag(D1)) {\n\t\tgoto(SB_2)\n\t}\n\tq\n\tSB_2:\n\tr\n\tSA_3(global):\n\tt\n\tSA_9:\n\tSB_1:\n\tu\n}\n", regexp.MustCompile(`^(SD|SD_\d+|SB_[129]|SA_[39])$`), false},
 	{"RAW", "raw `\nRawLabel:\n\t.byte 1\n`\n", nil, true},
 	{"CONST", "const UNUSED_K = 77\n", nil, true},
 }
